@@ -33,9 +33,9 @@ CHECKS = {
         note="One-block instructions are distinguished only by variant (three exist). Trusts TLC and the gene<->instruction encoding of the harness."),
     "C09": dict(
         cat="model_checking", ref="DESIGN.md §4 C09",
-        technique="TLA+ spec Generation.tla (claim / finish / fail / commit / abort per child, serial and parallel modes); TLC explores every interleaving and failure position for N=3/4 children on 2/3 workers over two steps with atomicity, freshness, own-randomness and liveness properties; real serial_next / par_next runs in rayon pools of 1-16 threads trace-validated against the same actions; Evolution.tla (whole-run composition) model-checked and trace-validated against real example-style pipelines",
+        technique="TLA+ spec Generation.tla (claim / finish / fail / commit / abort per child, serial and parallel modes); TLC explores every interleaving and failure position for N=3/4 children on 2/3 workers over two steps with atomicity, freshness, own-randomness and liveness properties; MC_GenSchedule.tla enumerates every schedule of one step (start / end order of <= 4/5 calls, which fail, serial and parallel) and the harness's child maker FORCES each on the real serial_next / par_next, the recorded step trace-validated; further real runs in rayon pools of 1-16 threads trace-validated against the same actions; Evolution.tla (whole-run composition) model-checked and trace-validated against real example-style pipelines",
         text="The one concurrent component is modelled as explicit per-child actions; TLC checks over all schedules and every set of failing calls that the population is never torn, is replaced by exactly N fresh distinct children or left untouched with the error of a failed child, that no two children share a draw and that every step terminates. Real steps (N in {0,1,2,3,8,33}, pools of 1..16 threads, failures at seeded call positions, perturbed schedules, two consecutive steps on one Generation) are recorded by an instrumented child-maker operator and must be behaviours of that specification. Set-like populations (BTreeSet, HashSet: children with equal keys collapse, the next step makes as many children as the population then has) and VecDeque / LinkedList populations are modelled (kind, key) and run. A second specification, Evolution.tla, composes Selection, Variation, the scorer contract and the generation step into the whole run of the repository's examples; TLC checks it over every initial population for 8 configurations and validates, stage by stage, real count_ones-style pipelines (DynWeighted mix, Select.apply_twice, then_map(GenomeExtractor), Recombine, Mutate, GenomeScorer, serial_next / par_next). Return events carry what the population says about its own size and emptiness; a 64-bit word drawn by a child never comes back in another run (another pool) of the process.",
-        note="Real schedules are sampled, not enumerated (no scheduler hook); exhaustive interleavings are on the model. Own randomness is observed as pairwise-distinct 64-bit draws."),
+        note="Every schedule TLC enumerates for <= 4 (thorough 5) children is forced on the real step by the harness's own child maker (no hook needed); one the step does not follow - rayon makes no further calls after a failure - is recorded, validated and counted, never a verdict. Larger steps are sampled. Own randomness is observed as pairwise-distinct 64-bit draws."),
     "C10": dict(
         cat="model_checking", ref="DESIGN.md §4 C10",
         technique="TLA+ spec Variation.tla (cut points / masks / exchange ranges as explicit choices); TLC exhaustive over lengths 0..4/6 with the property's clauses as invariants; deterministic cases replayed on the real code; random real crossovers trace-validated (TLC infers the hidden cut points); segment-coverage obligation against the TLC-derived child sets",
